@@ -280,6 +280,11 @@ func runC16(c *Ctx) {
 	}, 100)
 	consumedPeekRule(c, "consumed-peek", memNonVM, 60)
 	noLossAfterRetrieveRule(c, "no-loss-after-retrieve", memNonVM)
+	slotPinningRule(c, "slot-pinning")
+	invalidateSweepRule(c, "invalidate-sweep", []string{"mem/cache/writeback", "mem/cache/writethroughcache"}, 2)
+	idempotentStallRule(c, "idempotent-stall", func(pp string) bool {
+		return strings.HasPrefix(pp, ModPath+"/mem/") && !strings.HasPrefix(pp, ModPath+"/mem/cache") && !strings.HasPrefix(pp, ModPath+"/mem/vm")
+	}, 10)
 }
 
 func runC21(c *Ctx) {
@@ -578,6 +583,7 @@ func runC25(c *Ctx) {
 	consumedPeekRule(c, "consumed-peek", memVM, 15)
 	noLossAfterRetrieveRule(c, "no-loss-after-retrieve", memVM)
 	staleGuardRule(c, "stale-response-guard")
+	invalidateSweepRule(c, "invalidate-sweep", []string{"mem/vm/tlb", "mem/vm/mmuCache"}, 3)
 	// the TLB depends on the pipeline never stranding an item
 	sub := newCtx(c.P, "C15", c.Tier)
 	runC15(sub)
@@ -591,4 +597,123 @@ func runC25(c *Ctx) {
 	}
 	c.Floor("pipeline-region-coverage", 4)
 	_ = token.NoPos
+}
+
+// slotPinningRule (write-back cache): a transaction slot whose index is held in
+// one of State's index lists is still owed work (a queued or in-flight eviction,
+// an in-flight fetch) even when it is already marked Removed for its requester;
+// the allocator must consult every such list before it reuses a slot.
+func slotPinningRule(c *Ctx, rule string) {
+	p := c.P
+	rel := "mem/cache/writeback"
+	st := p.LookupType(rel, "State")
+	alloc := p.LookupFunc(rel, "State", "allocTransaction")
+	trans := p.Field(rel, "State", "Transactions")
+	if st == nil || alloc == nil || trans == nil {
+		c.Unknown(rule, rel+".State.allocTransaction", token.NoPos, "anchor not found")
+		return
+	}
+	scope := p.SrcFuncs(func(pp string) bool { return pp == pkgPath(rel) })
+	s := st.Type().Underlying().(*types.Struct)
+	// index holders: []int fields whose elements are used to index Transactions somewhere
+	var holders []*types.Var
+	for i := 0; i < s.NumFields(); i++ {
+		f := s.Field(i)
+		sl, ok := f.Type().Underlying().(*types.Slice)
+		if !ok {
+			continue
+		}
+		if b, isB := sl.Elem().Underlying().(*types.Basic); !isB || b.Kind() != types.Int {
+			continue
+		}
+		used := false
+		for _, fn := range scope {
+			for _, b := range fn.Blocks {
+				for _, in := range b.Instrs {
+					ia, isIA := in.(*ssa.IndexAddr)
+					if !isIA {
+						continue
+					}
+					if u, isU := ia.X.(*ssa.UnOp); !isU || FieldOf(u.X) == nil || !sameObj(FieldOf(u.X), trans) {
+						continue
+					}
+					if elementOfField(ia.Index, f, 0) {
+						used = true
+					}
+				}
+			}
+		}
+		if used {
+			holders = append(holders, f)
+		}
+	}
+	root := p.SSAFunc(alloc)
+	reads := map[*types.Var]bool{}
+	for g := range p.ModCG().Reach([]*ssa.Function{root}, func(h *ssa.Function) bool { return pkgOfFn(h) == pkgPath(rel) }) {
+		for _, b := range g.Blocks {
+			for _, in := range b.Instrs {
+				if fa, ok := in.(*ssa.FieldAddr); ok {
+					if fo := FieldOf(fa); fo != nil {
+						for _, h := range holders {
+							if sameObj(fo, h) {
+								reads[h] = true
+							}
+						}
+					}
+				}
+			}
+		}
+	}
+	for _, h := range holders {
+		c.Check(reads[h], rule, rel+":State."+h.Name(), p.Decl(alloc).Pos(), "consulted before a Removed slot is reused",
+			"State."+h.Name()+" holds indices of transaction slots that are still owed work, but the slot allocator never consults it: a slot retired for its requester can be handed to a new request while its queued/in-flight eviction or fetch still refers to it — the write-back is then issued from the overwritten slot (dirty data lost) and its acknowledgement releases the wrong line")
+	}
+	c.Check(len(holders) >= 3, rule, "instances", token.NoPos, "index-holding lists found ("+itoa(len(holders))+")", "fewer than three index-holding lists were recognised in the write-back cache State")
+}
+
+// elementOfField: v is an element read out of the slice held in field f (by
+// indexing or ranging), possibly through phis and local variable cells.
+func elementOfField(v ssa.Value, f *types.Var, depth int) bool {
+	if depth > 6 || v == nil {
+		return false
+	}
+	isFieldLoad := func(x ssa.Value) bool {
+		u, ok := x.(*ssa.UnOp)
+		if !ok || u.Op != token.MUL {
+			return false
+		}
+		fo := FieldOf(u.X)
+		return fo != nil && sameObj(fo, f)
+	}
+	switch x := v.(type) {
+	case *ssa.Phi:
+		for _, e := range x.Edges {
+			if elementOfField(e, f, depth+1) {
+				return true
+			}
+		}
+	case *ssa.UnOp:
+		if x.Op != token.MUL {
+			return false
+		}
+		if ia, ok := x.X.(*ssa.IndexAddr); ok && isFieldLoad(ia.X) {
+			return true
+		}
+		if al, ok := x.X.(*ssa.Alloc); ok { // a local cell
+			for _, ref := range *al.Referrers() {
+				if st, isSt := ref.(*ssa.Store); isSt && st.Addr == ssa.Value(al) && elementOfField(st.Val, f, depth+1) {
+					return true
+				}
+			}
+		}
+	case *ssa.Extract:
+		if nx, ok := x.Tuple.(*ssa.Next); ok {
+			if rg, isR := nx.Iter.(*ssa.Range); isR && isFieldLoad(rg.X) {
+				return x.Index == 2
+			}
+		}
+	case *ssa.Index:
+		return isFieldLoad(x.X)
+	}
+	return false
 }
